@@ -27,6 +27,7 @@ import (
 	"net/url"
 	"os"
 	"path"
+	"path/filepath"
 	"sort"
 	"strconv"
 	"strings"
@@ -611,6 +612,15 @@ func (b Browse) ServeArchive(w http.ResponseWriter, r *http.Request, dirPath str
 
 		if path == dirPath {
 			return nil // Skip the containing directory
+		}
+
+		// hidden files are not listed, so they (and anything below
+		// a hidden directory) are not archived either
+		if bc.Fs.IsHidden(info) {
+			if info.IsDir() {
+				return filepath.SkipDir
+			}
+			return nil
 		}
 
 		var file io.ReadCloser
